@@ -274,7 +274,7 @@ class FieldStorage(FieldStorageInterface):
         >>> field.value
         b'bytes'
         """
-        if self._value:
+        if self._value is not None:
             return self._value
         if isinstance(self.file, (StringIO, BytesIO)):
             return self.file.getvalue()
